@@ -4,12 +4,13 @@
 EXTENDS Naturals, Sequences, TLC, Json
 Endings == {"release", "reset", "abrupt_prefix", "abrupt_header", "abrupt_body", "reset_mid", "garbage", "bad_version",
             "wrong_msgtype", "oversized", "security", "timeout_mid", "timeout_idle", "unknown_serializer", "bad_annotations"}
-VARIABLES ending, ntrack, untrack, bystander, session, hookraise, resraise, done
+VARIABLES ending, ntrack, untrack, bystander, session, hookraise, resraise, stream, done
 Init == /\ ending \in Endings /\ ntrack \in 0..2 /\ untrack \in BOOLEAN /\ bystander \in BOOLEAN
         /\ session \in BOOLEAN /\ hookraise \in BOOLEAN /\ done = FALSE
         /\ resraise \in BOOLEAN      \* closing the first tracked resource raises
-        /\ (untrack => ntrack > 0) /\ (resraise => ntrack > 0)
-Next == /\ ~done /\ done' = TRUE /\ UNCHANGED <<ending, ntrack, untrack, bystander, session, hookraise, resraise>>
+        /\ stream \in BOOLEAN        \* the connection has an unfinished streamed result when it ends
+        /\ (untrack => ntrack > 0) /\ (resraise => ntrack > 0) /\ (stream => ~untrack /\ ~resraise)
+Next == /\ ~done /\ done' = TRUE /\ UNCHANGED <<ending, ntrack, untrack, bystander, session, hookraise, resraise, stream>>
         /\ PrintT("SCRIPT " \o ToJson([ending |-> ending, ntrack |-> ntrack, untrack |-> untrack, bystander |-> bystander,
-                                       session |-> session, hookraise |-> hookraise, resraise |-> resraise]))
+                                       session |-> session, hookraise |-> hookraise, resraise |-> resraise, stream |-> stream]))
 =============================================================================
